@@ -12,7 +12,8 @@ import SqlglotModel.Generated.C17
 
 namespace SqlglotModel.Properties.C17
 open SqlglotModel.Lineage
-open SqlglotModel.Generated.C17 (keyComps recursiveCalls recursiveCallsPassCache)
+open SqlglotModel.Generated.C17 (keyComps recursiveCalls recursiveCallsPassCache keyNormalisations refNormalisations)
+open SqlglotModel.Ident (Ident CaseFns Strategy asciiFns)
 
 /-- the configuration the current source induces -/
 def genCfg (useCache : Bool) : Cfg := ⟨keyComps, useCache⟩
@@ -183,14 +184,16 @@ theorem cteTwice_ok :
 /-! ### `sources=` : `exp.expand` modelled, not assumed -/
 
 /-- **expand then lineage = inline**: instantiating the `sources` definitions as `exp.expand` does (a fresh, tagged
-    derived-table copy per reference, recursively; `Model.expandQ some`) and writing the same derived tables inline by
-    hand (`expandQ (fun _ => none)`, no tags) give the same root and the same leaves for every output column,
-    for every definition list (also cyclic or dangling ones: explicit error scope) and every fuel. -/
-theorem expand_then_lineage_eq_inline (b : Bool) (defs : List SrcDef) (fuel : Nat) (main : List LScope) (column : String) :
-    (lineageOne (genCfg b) (expandQ some defs fuel main).1 (expandQ some defs fuel main).2 column).1.leaves =
-      (lineageOne (genCfg b) (expandQ (fun _ => none) defs fuel main).1 (expandQ (fun _ => none) defs fuel main).2
+    derived-table copy per reference, recursively; `Model.expandQ mk`, any tagging `mk`, any way `look` of finding a
+    definition) and writing the same derived tables inline by hand (`expandQ (fun _ => none)`, no tags) give the same
+    root and the same leaves for every output column — also for cyclic or dangling definitions (explicit error scope)
+    and every fuel. -/
+theorem expand_then_lineage_eq_inline (b : Bool) (mk : String → Option String) (look : Look) (fuel : Nat)
+    (main : List LScope) (column : String) :
+    (lineageOne (genCfg b) (expandQ mk look fuel main).1 (expandQ mk look fuel main).2 column).1.leaves =
+      (lineageOne (genCfg b) (expandQ (fun _ => none) look fuel main).1 (expandQ (fun _ => none) look fuel main).2
         column).1.leaves := by
-  obtain ⟨h1, h2⟩ := expandQ_sim some (fun _ => none) defs fuel main
+  obtain ⟨h1, h2⟩ := expandQ_sim mk (fun _ => none) look fuel main
   rw [h2]
   exact sources_arg_eq_inline b _ _ h1 _ column
 
@@ -206,9 +209,54 @@ def expMain : List LScope :=
 /-- non-vacuity: the expansion has 5 scopes (two copies of s1, each with its own copy of s2), root 4, and both
     columns reach `t.a`; without the definitions the columns end in the unexpanded table `s1` -/
 theorem expand_example :
-    (expandQ some expDefs 3 expMain).1.length = 5 ∧ (expandQ some expDefs 3 expMain).2 = 4 ∧
-      lineageAll (genCfg true) (expandQ some expDefs 3 expMain).1 4 ["y", "z"] [] = [[("t", "a")], [("t", "a")]] ∧
-      lineageAll (genCfg true) (expandQ some [] 3 expMain).1 0 ["y", "z"] [] = [[("s1", "x")], [("s1", "x")]] := by
+    (expandQ some (fun n => findDef n expDefs) 3 expMain).1.length = 5 ∧ (expandQ some (fun n => findDef n expDefs) 3 expMain).2 = 4 ∧
+      lineageAll (genCfg true) (expandQ some (fun n => findDef n expDefs) 3 expMain).1 4 ["y", "z"] [] = [[("t", "a")], [("t", "a")]] ∧
+      lineageAll (genCfg true) (expandQ some (fun _ => none) 3 expMain).1 0 ["y", "z"] [] = [[("s1", "x")], [("s1", "x")]] := by
+  decide +kernel
+
+
+/-! ### the keys of `sources=` are normalised exactly once -/
+
+/-- table fact (decided against the regenerated data): between `lineage()` and `exp.expand` the dict keys go through
+    `normalize_table_name` exactly once, and so does each table reference.  A second pass in the source breaks the build. -/
+theorem generated_key_normalised_once : keyNormalisations = 1 ∧ refNormalisations = 1 := by decide
+
+/-- **keys normalised once**: with one pass over the definition keys, a table reference with identifier parts `r`
+    finds a definition iff some definition key `kd.key` satisfies `normKey kd.key = normKey r`, for every strategy and
+    all case functions (no hypothesis needed); and what it finds is such a definition, named by the normalised key. -/
+theorem expand_key_normalised_once (f : CaseFns) (s : Strategy) (defs : List KeyedDef) (refs : List (String × List Ident))
+    (n : String) (r : List Ident) (hr : lookupRef n refs = some r) :
+    ((∃ d, lookupKeyed f s 1 defs refs n = some d) ↔ ∃ kd ∈ defs, normKey f s kd.key = normKey f s r) ∧
+      (∀ d, lookupKeyed f s 1 defs refs n = some d →
+        d.name = normKey f s r ∧ ∃ kd ∈ defs, normKey f s kd.key = normKey f s r ∧ kd.scopes = d.scopes) := by
+  have hsound : ∀ d, lookupKeyed f s 1 defs refs n = some d →
+      d.name = normKey f s r ∧ ∃ kd ∈ defs, normKey f s kd.key = normKey f s r ∧ kd.scopes = d.scopes := by
+    intro d hd
+    simp only [lookupKeyed, hr] at hd
+    obtain ⟨h1, h2⟩ := findKeyed_sound hd
+    refine ⟨h1, ?_⟩
+    obtain ⟨kd, hkd, heq⟩ := List.mem_map.mp h2
+    simp only [defKey, Prod.mk.injEq] at heq
+    exact ⟨kd, hkd, heq.1, heq.2⟩
+  refine ⟨⟨?_, ?_⟩, hsound⟩
+  · rintro ⟨d, hd⟩
+    obtain ⟨_, kd, hkd, h1, _⟩ := hsound d hd
+    exact ⟨kd, hkd, h1⟩
+  · rintro ⟨kd, hkd, h1⟩
+    simp only [lookupKeyed, hr]
+    apply findKeyed_complete
+    exact ⟨kd.scopes, List.mem_map.mpr ⟨kd, hkd, by simp only [defKey, h1]⟩⟩
+
+/-- witness: `sources={'"Orders"': …}` referenced as `FROM "Orders"` under LOWERCASE.  One pass: key and reference
+    both normalise to `Orders` and the definition is found.  A second pass has only the unquoted text `Orders` to
+    start from (`reparseKey` forgets `quoted`), folds it to `orders`, and the reference no longer finds its source. -/
+theorem expand_key_double_normalisation_witness :
+    normKey asciiFns .lowercase [⟨"Orders", true⟩] = "Orders" ∧
+    defKey asciiFns .lowercase 2 [⟨"Orders", true⟩] = "orders" ∧
+    (lookupKeyed asciiFns .lowercase 1 [⟨[⟨"Orders", true⟩], []⟩] [("Orders", [⟨"Orders", true⟩])] "Orders").isSome = true ∧
+    (lookupKeyed asciiFns .lowercase 2 [⟨[⟨"Orders", true⟩], []⟩] [("Orders", [⟨"Orders", true⟩])] "Orders").isSome = false ∧
+    -- an unquoted name survives a second pass (why plain lower-case source names never showed it)
+    (lookupKeyed asciiFns .lowercase 2 [⟨[⟨"Orders", false⟩], []⟩] [("Orders", [⟨"Orders", false⟩])] "Orders").isSome = true := by
   decide +kernel
 
 end SqlglotModel.Properties.C17
